@@ -48,8 +48,11 @@ class C16:
     def main(self, tier, seed, gate=True):
         cfg, cap = make_cfg(tier, BASE_OPS)
         narrow = narrow_cfg(tier, {"add", "readd", "pull", "kill", "eof", "finish"})
-        return X.search_phases(self.id, [("wide", cfg, cap), ("narrow-deep", narrow, 60 if tier == "quick" else 1500)], tier, seed,
-                               self.families, rule=RULE + "; second phase: the narrow configuration (1 channel, 2 workers, 2 jobs) to a deeper bound",
+        # client-chosen integer ids next to server-numbered jobs: the id a client picked may be the next serial number
+        intids = narrow_cfg(tier, {"add", "addanon", "pull", "eof", "finish"}, maxjobs=3, bound=8 if tier == "quick" else 10, idnames=(2, 1, 3))
+        return X.search_phases(self.id, [("wide", cfg, cap), ("narrow-deep", narrow, 60 if tier == "quick" else 1500),
+                                         ("integer-ids", intids, 60 if tier == "quick" else 900)], tier, seed,
+                               self.families, rule=RULE + "; second phase: the narrow configuration (1 channel, 2 workers, 2 jobs) to a deeper bound; third phase: client-chosen integer ids (2, 1, 3) mixed with server-numbered jobs",
                                assumptions=ASSUME, gate=gate)
 
     def replay(self, record):
